@@ -39,11 +39,45 @@ def run(pid, tier):
     for (ln, ev) in parse_bad(rr.out):
         o.finding(kind='discrete', op=ev.get('op'), dkind=ev.get('kind'), par=ev.get('par') or ev.get('p') or [ev.get('a'), ev.get('j')], event=ev,
                   signature='discrete:%s:%s:%s' % (ev.get('op'), ev.get('kind'), ev.get('par') or ev.get('p') or ev.get('a')))
+    # Zipf / Zeta in f32: exact induced law of the two-word rejection loop over the 2^24 x 2^24 ticket lattice
+    for variant in ('code', 'wrong'):
+        rz = tlc('RejToy', 'RejToy_%s.cfg' % variant, pid, 'rejtoy_' + variant, workers=2, timeout=600, heap='2g')
+        if 'REJTOY' not in rz.out:
+            raise ToolError('RejToy did not evaluate (%s): %s' % (variant, rz.out[-800:]))
+        holds = '"%s", TRUE' % variant in rz.out
+        o.add_tlc(rz, 'RejToy design law of the rejection loop, variant %s: %s' % (variant, 'holds' if holds else 'fails'))
+        if variant == 'code' and not holds:
+            o.finding(kind='design', invariant='RejToy LawHolds', detail=rz.out[-1500:], signature='design:rejtoy')
+        if variant != 'code' and holds:
+            raise ToolError('RejToy: the off-by-one acceptance test passes the law check (vacuous)')
+    rj = wd / 'rej.ndjson'
+    r2 = tlc('MCRejection', 'MCRejection.cfg', pid, 'rej_cases', workers=1, timeout=3600, heap='2g', env={'TIER': tier},
+             pipe_to=[str(RDV), 'rej-drive', '--seed', str(sd), '--out', str(rj)])
+    require_ok(r2, 'MCRejection')
+    s2 = json.loads(r2.consumer_out.strip().splitlines()[-1])
+    if s2['cases'] < 8:
+        raise ToolError('rej-drive: too few cases: %s' % s2)
+    o.add_tlc(r2, 'MCRejection: pmf table sanity (ASSUME RTableOK) and case generation')
+    o.extra['rejection_drive'] = s2
+    r3 = tlc('TraceRejection', 'TraceRejection.cfg', pid, 'rej_trace', trace_mode=True, env={'TRACE': rj, 'TIER': tier}, timeout=1200, heap='4g')
+    require_ok(r3, 'TraceRejection')
+    if r3.rejected or r3.violated:
+        raise ToolError('rejection trace not consumed: %s' % (r3.rejected or r3.violated))
+    o.add_tlc(r3, 'TraceRejection: %d exact laws over 2^48 tickets' % s2['events'])
+    rlines = rj.read_text().splitlines()
+    o.traces += len(rlines)
+    for (ln, ev) in parse_bad(r3.out):
+        o.finding(kind='rejection', fam=ev.get('fam'), ft=ev.get('ft'), params=ev.get('params'), res=str(ev.get('res'))[:80], show=ev.get('show'),
+                  event={k: v for k, v in ev.items() if k not in ('probes',)}, signature='rejection:%s:%s' % (ev.get('fam'), ev.get('params')))
+    o.samples.append({'kind': 'exact law of a two-word rejection sampler (f32) over 2^48 tickets', 'event': {k: v for k, v in json.loads(rlines[0]).items() if k != 'probes'}})
     o.samples.append({'kind': 'ticket histogram (real sampler -> TraceDiscrete)', 'event': next(e for e in evs if e['op'] == 'hist' and e['kind'] == 'hin' and e['par'][0] >= 8)})
     o.samples.append({'kind': 'Bringmann-Friedrich scripted path', 'event': next(e for e in evs if e['op'] == 'bf')})
     o.assumptions = [
-        'exact regimes only: BINV (n*min(p,1-p) < 10, dyadic p), HIN (N <= 16 histograms, N <= 30 breakpoint tickets), Geometric/StandardGeometric structure; '
-        'BTPE, Poisson (Knuth/PD), H2PE, Zipf, Zeta laws are floating-point rejection kernels and are NOT decided',
+        'exact regimes only: BINV (n*min(p,1-p) < 10, dyadic p), HIN (N <= 16 histograms, N <= 30 breakpoint tickets), Geometric/StandardGeometric structure, '
+        'Zipf and Zeta in f32 (exact law over the 2^24 x 2^24 lattice of proposal and acceptance word at the table\'s parameter points, k <= 24 and the tail, tolerance 2^-20 + 2^-14 p); '
+        'BTPE, Poisson (Knuth/PD), H2PE and the f64 instantiations of Zipf/Zeta are floating-point rejection kernels whose laws are NOT decided',
+        'Zipf/Zeta: the documented pmf values are mpmath constants of spec/RejectionTable.tla; the law formula A_k / A assumes two words per iteration and an acceptance region that is a prefix of the acceptance lattice, '
+        'both checked (other = 0; probes) - and is itself checked by ticket enumeration on a toy instance (RejToy.tla, with a deliberately wrong variant that must fail)',
         'half a ticket (>= 2^-31) is eleven orders of magnitude above the rounding error of the code\'s recurrences',
         'an event whose calls consumed a different number of words than the inverse-transform design is counted as outside the exact regime and not judged',
     ]
